@@ -247,7 +247,8 @@ func c29Case(rt *rapid.T, env *mEnv, rec *vh.Recorder) {
 	oneWay := func(what, work, from, other string, oursS, theirsS *mSide, oursCh bool) (*mExpect, []string, []string, bool) {
 		e := mModelMerge(base, oursS, theirsS, sc, oursCh)
 		if (c29ShapeLeftSchemaRightDelete(base, oursS, theirsS, sc, oursCh) && vh.OpenFinding("C29", c29FindLeftSchemaRightDelete)) ||
-			(c29ShapeByteEqual(base, oursS, theirsS, sc) && vh.OpenFinding("C29", c29FindByteEqual)) {
+			(c29ShapeByteEqual(base, oursS, theirsS, sc) && vh.OpenFinding("C29", c29FindByteEqual)) ||
+			(c29ShapeReorderByteEqual(base, oursS, theirsS, sc, oursCh) && vh.OpenFinding("C29", c29FindReorderByteEqual)) {
 			rec.Excluded(1)
 			return e, nil, nil, true
 		}
